@@ -348,6 +348,26 @@ Lemma loaded_ext (s s' : list Z) (gs : list gvar) :
   filter (fun g => memZ (gv_id g) s) gs = filter (fun g => memZ (gv_id g) s') gs.
 Proof. intro H. apply filter_ext. intro g. apply H. Qed.
 
+Lemma dedup_perm_length l l' : Permutation l l' -> lenZ (dedup l) = lenZ (dedup l').
+Proof.
+  intro P. unfold lenZ. f_equal. apply Permutation_length.
+  apply NoDup_Permutation; [apply dedup_nodup|apply dedup_nodup|].
+  intro x. rewrite !dedup_in. split; apply Permutation_in; [exact P|apply Permutation_sym; exact P].
+Qed.
+
+Lemma tnl_perm legacy th s s' t loaded :
+  Permutation s s' ->
+  target_not_loaded legacy th (Some s) t loaded = target_not_loaded legacy th (Some s') t loaded.
+Proof. intro P. unfold target_not_loaded. rewrite (dedup_perm_length s s' P). reflexivity. Qed.
+
+Lemma haps_vars_perm hs hs' :
+  Forall2 hap_perm hs hs' ->
+  Permutation (flat_map (fun h => map fst (h_vars h)) hs) (flat_map (fun h => map fst (h_vars h)) hs').
+Proof.
+  induction 1 as [|h h' l l' [_ P] _ IH]; [constructor|]. cbn [flat_map].
+  apply Permutation_app; [apply Permutation_map; exact P|exact IH].
+Qed.
+
 Lemma calc_ld_perm target gs lines lines' keep ids fg :
   Forall2 hline_perm lines lines' ->
   calc_ld false target gs lines keep ids fg = calc_ld false target gs lines' keep ids fg.
@@ -372,5 +392,6 @@ Proof.
     + rewrite (loaded_ext (target :: flat_map (fun h => map fst (h_vars h)) hs)
                           (target :: flat_map (fun h => map fst (h_vars h)) hs') gs)
         by (intro x; rewrite !memZ_cons, (haps_vars_memZ_perm x hs hs' HS); reflexivity).
+      rewrite (tnl_perm false None _ _ target _ (perm_skip target (haps_vars_perm hs hs' HS))).
       rewrite (map_res_perm _ keep _ _ HS). reflexivity.
 Qed.
